@@ -85,6 +85,25 @@ Definition fail_body (line : option str) (f : mfunc) (kw : env) : result (list v
 Definition run_on (b : mfunc -> env -> result (list val)) (v : variant) (st : storage) (q : req) (cleanup : bool) (s0 : fs)
   : outcome := run_fs b v st (q_funcs q) (q_inputs q) (q_internal q) cleanup s0.
 
+(* load_outputs on the folder the final run left: every output read back through init_store *)
+Definition sx_reload (q : req) (v : variant) (st : storage) (r : outcome) : sx :=
+  match o_result r with
+  | Err _ => SNone
+  | Ok _ =>
+      match mk_ctx q with
+      | Err e => SErr e
+      | Ok cx =>
+          match init_store v st cx (o_fs r, []) with
+          | Err e => SErr e
+          | Ok (_, rs) =>
+              SL (flat_map (fun f => match stored_view cx rs f with
+                                     | Ok l => map (fun ov => SL [SS (fst ov); Run_C06.sx_val (snd ov)]) l
+                                     | Err e => map (fun o => SL [SS o; SErr e]) (fouts f)
+                                     end) (q_funcs q))
+          end
+      end
+  end.
+
 Definition cut (evs : list event) (k : option nat) : list event :=
   match k with Some n => firstn n evs | None => evs end.
 
@@ -106,14 +125,14 @@ Definition run (c : case) : sx :=
       | None =>
           let r := run_on sym_body v st q false s1 in
           SL [listing q s1; sx_outcome q (o_result r);
-              Run_C06.sx_calls (call_lines e1); Run_C06.sx_calls (call_lines (o_events r))]
+              Run_C06.sx_calls (call_lines e1); Run_C06.sx_calls (call_lines (o_events r)); sx_reload q v st r]
       | Some k =>
           let r2 := run_on sym_body v st q false s1 in
           let e2 := firstn k (o_events r2) in
           let s2 := apply_evs s1 e2 in
           let r := run_on sym_body v st q false s2 in
           SL [listing q s2; sx_outcome q (o_result r);
-              Run_C06.sx_calls (call_lines e1 ++ call_lines e2); Run_C06.sx_calls (call_lines (o_events r))]
+              Run_C06.sx_calls (call_lines e1 ++ call_lines e2); Run_C06.sx_calls (call_lines (o_events r)); sx_reload q v st r]
       end
   end.
 
@@ -175,11 +194,13 @@ Definition spec_ok (c : case) (obs : sx) : bool :=
       if old then true else   (* the old protocol is only documented (see Props/C05.v, resume_refuted_inplace) *)
       match mk_oracle q, obs with
       | None, _ => true
-      | Some o, SL [lst; out; _; calls] =>
+      | Some o, SL [lst; out; _; calls; reload] =>
           match un_strs calls with
           | Some cl =>
               (* the resumed run completes and yields exactly the uninterrupted results (hence no partial or stale value) *)
               sx_eqb out (expected_outcome q o)
+              (* ... also as read back from the folder afterwards *)
+              && sx_eqb (SL [SS (s "ok"); reload]) (expected_outcome q o)
               (* and recomputes no element that was completely stored *)
               && forallb (fun l => negb (mem_str l cl)) (stored_calls q o st lst)
           | None => false
